@@ -351,7 +351,7 @@ def attribute(ur, unit_files_prefix=''):
             if o is not None and ob_any is None:
                 ob_any = o
         ob = ob_any
-        props = set();
+        props = set(); helper_rest = []
         if ob:
             parts = ob.split('|')
             props.add(parts[0].split('.')[0]); props |= set(parts[1:])
@@ -365,8 +365,11 @@ def attribute(ur, unit_files_prefix=''):
             obname = None
             if fn and fn in fnprops:
                 fi = fnprops[fn]
-                if inblk:      # an untagged helper assertion inside an inserted proof block: it supports all of the fn's clauses
-                    props |= set(fi.get('props') or [])
+                if inblk:      # an untagged helper assertion inside an inserted proof block: a step of the proof script, it supports all of
+                    # the fn's clauses. It is reported under the fn's first property; which of the others it concerns cannot be told
+                    # from a broken proof step, so for them the verdict is undecided (their own clauses and stand-ins still decide)
+                    pl = list(fi.get('props') or [])
+                    props |= set(pl[:1]); helper_rest = pl[1:]
                 else:          # an implicit obligation in the original code: callee precondition, overflow, bounds, unreachable panic
                     props |= set(fi.get('implicit') if fi.get('implicit') is not None else (fi.get('props') or []))
         msg = d.get('message', '')
@@ -380,7 +383,7 @@ def attribute(ur, unit_files_prefix=''):
         if obname is None and fn:
             obname = '%s#implicit(%s)' % (fn, msg)
         out.append({'kind': kind, 'fn': fn, 'ob': obname, 'props': sorted(props), 'message': msg, 'where': where,
-                    'rendered': d.get('rendered', '')[:6000]})
+                    'rendered': d.get('rendered', '')[:6000], 'undecided_props': helper_rest if kind == 'verification' else []})
     return out
 
 
